@@ -36,9 +36,24 @@ class C12(Prop):
             for _ in range(n):
                 ops = sg.rand_history(rng, rng.randint(6, 24), behavior=True)
                 out.append(sg.mk_case("behavior", fl, ops, "random", init=rng.randint(-3, 50), rng=rng))
+        # the two-producer interleaving store1, store2, broadcast2, broadcast1 of C12_race_counterexample,
+        # replayed on the real BehaviorSubject<_, SubjectThreads> through hook H2
+        from ..case import Case
+        out.append(Case("behaviorrace", "threads", [], [["race"]], {"kind": "race-replay"}))
         return out
 
     def oracle(self, case, lines, model_lines=None):
+        if case.suite == "behaviorrace":
+            for k in range(len(case.events)):
+                b = lines.get(k, "")
+                if not b.startswith("log="):
+                    continue
+                log, _, peek = b[4:].partition(" peek=")
+                last = log.split(";")[-1] if log else ""
+                if last != "N" + peek:
+                    return {"kind": "latest-not-last-delivered", "event": k,
+                            "detail": f"deliveries {log}: delivered last {last}, most recent value {peek}"}
+            return None
         return sg.check_history(case, lines, behavior=True)
 
     def nontrivial(self, case, lines):
@@ -48,7 +63,7 @@ class C12(Prop):
         return f"{failure['kind']}|{case.suite}|{case.flavor}"
 
     def shrink_candidates(self, case):
-        return sg.shrink_candidates(case)
+        return [] if case.suite == "behaviorrace" else sg.shrink_candidates(case)
 
     def extra_coverage(self, cases, impl):
         fl = {}
